@@ -194,9 +194,18 @@ fn after_scale(
 /// parse with the optional callbacks installed: a recipe-reference check that
 /// rejects some names and a metadata validator that warns, errors and excludes
 pub fn parse_with_callbacks(p: &cooklang::CooklangParser, s: &str) -> RecipeResult {
+    p.parse_with_options(s, callback_options())
+}
+
+/// the metadata-only parse with the same callbacks
+pub fn parse_metadata_with_callbacks(p: &cooklang::CooklangParser, s: &str) -> cooklang::MetadataResult {
+    p.parse_metadata_with_options(s, callback_options())
+}
+
+fn callback_options<'a>() -> cooklang::ParseOptions<'a> {
     use cooklang::analysis::{CheckOptions, CheckResult};
     let mut n = 0usize;
-    let opts = cooklang::ParseOptions {
+    cooklang::ParseOptions {
         recipe_ref_check: Some(Box::new(|name: &str| match name.len() % 3 {
             0 => CheckResult::Error(vec!["unknown recipe".into(), "second hint".into()]),
             1 => CheckResult::Warning(vec!["maybe".into()]),
@@ -217,8 +226,7 @@ pub fn parse_with_callbacks(p: &cooklang::CooklangParser, s: &str) -> RecipeResu
                 _ => CheckResult::Ok,
             }
         })),
-    };
-    p.parse_with_options(s, opts)
+    }
 }
 
 pub fn metadata_accessors(md: &cooklang::Metadata, conv: &cooklang::Converter) {
@@ -382,9 +390,20 @@ impl<'a> SpanCheck<'a> {
         for color in [false, true] {
             match guarded(|| {
                 let mut out = Vec::new();
-                r.write("f", s, color, &mut out).map(|_| out.len())
+                r.write("f", s, color, &mut out).map(|_| out)
             }) {
-                Ok(Ok(_)) => {}
+                Ok(Ok(whole)) => {
+                    // environment deviation: a sink that takes 5 bytes per call must receive the same text
+                    if !r.is_empty() {
+                        let mut t = ShortWrites { buf: Vec::new(), k: 5 };
+                        match guarded(|| r.write("f", s, color, &mut t)) {
+                            Ok(Ok(())) if t.buf == whole => {}
+                            Ok(Ok(())) => self.errs.push((format!("report rendering loses text on a sink with short writes: {what}"), format!("{} of {} bytes arrived", t.buf.len(), whole.len()))),
+                            Ok(Err(e)) => self.errs.push((format!("report rendering failed on a sink with short writes: {what}"), format!("{e}"))),
+                            Err(m) => self.errs.push((format!("report rendering panicked: {what}"), m)),
+                        }
+                    }
+                }
                 Ok(Err(e)) => self.errs.push((
                     format!("report rendering failed: {what}"),
                     format!("SourceReport::write returned {e}"),
@@ -395,6 +414,22 @@ impl<'a> SpanCheck<'a> {
                 )),
             }
         }
+    }
+}
+
+/// a sink that accepts at most `k` bytes per `write` call
+struct ShortWrites {
+    buf: Vec<u8>,
+    k: usize,
+}
+impl std::io::Write for ShortWrites {
+    fn write(&mut self, b: &[u8]) -> std::io::Result<usize> {
+        let n = b.len().min(self.k);
+        self.buf.extend_from_slice(&b[..n]);
+        Ok(n)
+    }
+    fn flush(&mut self) -> std::io::Result<()> {
+        Ok(())
     }
 }
 
@@ -632,7 +667,15 @@ pub fn c05_check(cfg: &Config, s: &str) -> (Vec<Violation>, bool, u64) {
             }
         }
     }
-    let mask = comment_mask(s);
+    // Cooklang comments only exist in the Cooklang part: a `[-` or `--` inside a YAML front matter is YAML.
+    // The body starts after the line of the closing fence, which follows the span of the front-matter event.
+    let body_start = events
+        .iter()
+        .find_map(|e| if let Event::YAMLFrontMatter(t) = e { Some(t.span().end().min(s.len())) } else { None })
+        .map(|yaml_end| s[yaml_end..].find('\n').map(|p| yaml_end + p + 1).unwrap_or(s.len()))
+        .unwrap_or(0);
+    let mut mask = vec![false; body_start];
+    mask.extend(comment_mask(&s[body_start..]));
     let mut out = vec![];
     let mut any_alnum = false;
     for (i, ch) in s.char_indices() {
@@ -869,6 +912,25 @@ pub fn c14_check(cfg: &Config, s: &str) -> (Vec<Violation>, bool, u64) {
                 nontrivial,
                 h,
             );
+        }
+        // the same agreement when the caller installs callbacks (a validator that warns, errors, excludes
+        // entries and switches the standard checks off; a recipe-reference check)
+        if nontrivial {
+            let full = parse_with_callbacks(&cfg.parser, s);
+            let meta = parse_metadata_with_callbacks(&cfg.parser, s);
+            if let (Some(f), Some(m)) = (full.output(), meta.output()) {
+                if &f.metadata != m {
+                    return (
+                        vec![Violation::new(
+                            "metadata differs (with callbacks)",
+                            format!("parse_with_options().metadata = {:?} but parse_metadata_with_options() = {:?}", f.metadata.map, m.map),
+                            case_json(s, cfg),
+                        )],
+                        nontrivial,
+                        h,
+                    );
+                }
+            }
         }
         return (vec![], nontrivial, h);
     }
